@@ -33,6 +33,17 @@ def tlc_error_text(r):
 def run_mc(ctx, st):
     out = os.path.join(ctx["work"], st["name"] + ".out")
     res = dict(name=st["name"], kind="mc", exhaustive=st["exhaustive"], tlc_runs=[], violations=[], infra=[])
+    if st.get("pre"):
+        # observation of the code needed by the specification (e.g. the operator table), written into the private spec copy
+        specdir = os.path.join(ctx["work"], "spec")
+        if not os.path.isdir(specdir):
+            import shutil
+            shutil.copytree(os.path.join(ctx["verif"], "spec"), specdir)
+        p = subprocess.run([ctx["harness"]] + st["pre"][:-1] + [os.path.join(specdir, st["pre"][-1])], cwd=ctx["verif"],
+                           text=True, capture_output=True)
+        if p.returncode != 0:
+            res["infra"].append("pre-step failed: " + p.stdout[-1000:] + p.stderr[-1000:])
+            return res
     r = ctx["run_tlc"](ctx["work"], st["module"], st["cfg"], out, mode=st["mode"], simulate=st.get("num"),
                        depth=st.get("depth"), seed=st.get("seed"), timeout=st.get("timeout", 3000),
                        constants=st.get("constants"), workers=st.get("workers"))
@@ -140,6 +151,12 @@ def run_trace(ctx, st):
 
 def run_design(ctx, st):
     res = dict(name=st["name"], kind="design", tlc_runs=[], violations=[], infra=[])
+    if st.get("pre"):
+        specdir = os.path.join(ctx["work"], "spec")
+        if not os.path.isdir(specdir):
+            import shutil
+            shutil.copytree(os.path.join(ctx["verif"], "spec"), specdir)
+        subprocess.run([ctx["harness"]] + st["pre"][:-1] + [os.path.join(specdir, st["pre"][-1])], cwd=ctx["verif"], capture_output=True)
     out = os.path.join(ctx["work"], st["name"] + ".out")
     r = ctx["run_tlc"](ctx["work"], st["module"], st["cfg"], out, mode=st.get("mode", "bfs"), simulate=st.get("num"),
                        depth=st.get("depth"), timeout=st.get("timeout", 3000), constants=st.get("constants"),
@@ -197,4 +214,20 @@ PROPS["C08"] = dict(
     assumptions=["ONNX opset-13 operator documents as transcribed in spec/OpIndex.tla",
                  "Slice: only non-negative, unclamped, positive-step requests are must-compute; others may be refused but never answered differently"],
     stages=lambda tier: [mc("index-ops", "MC_C08.tla", "MC_C08_%s.cfg" % tier, min_cases=100000)],
+)
+
+PROPS["C15"] = dict(
+    rule="complete enumeration: 55 operators x every input count 0..max+2 x each of 15 dtypes at each position (others at an allowed "
+         "type) x nil at each (pair of) optional position(s), against the arity/type table extracted from the real operators; every "
+         "behaviour of Registry.tla with <= 5 lookup/Init/Apply steps; 20 unregistered names; non-trivial = every gate case (each has "
+         "a definite accept/error outcome)",
+    assumptions=["the gate is specified relative to each operator's own declared min/max/type constraints (GetMinInputs, GetMaxInputs, GetInputTypeConstraints)"],
+    stages=lambda tier: [
+        mc("gate", "MC_C15.tla", "MC_C15_gate.cfg", pre=["optable", "-out", "optable.json"], min_cases=8000),
+        mc("names", "MC_C15.tla", "MC_C15_names.cfg", pre=["optable", "-out", "optable.json"], min_cases=70),
+        mc("registry", "MC_C15.tla", "MC_C15_registry.cfg", pre=["optable", "-out", "optable.json"], min_cases=2000),
+        design("registry-singleton-antivacuity", "MC_C15.tla", "MC_C15_registry_singleton.cfg", expect_rc=12,
+               note="with SingletonInstances = TRUE TLC must find the FreshInstances counterexample",
+               pre=["optable", "-out", "optable.json"]),
+    ],
 )
